@@ -553,8 +553,11 @@ class io_epoll_context::read_sender {
 
       UNIFEX_VERIF_YIELD("io.ep.r.start");
       auto result = readv(fd_, buffer_, 1);
+      if (result < 0) {
+        result = -errno;
+      }
 
-      if (result == -EAGAIN || result == -EWOULDBLOCK || result == -EPERM) {
+      if (result == -EAGAIN || result == -EWOULDBLOCK) {
         if constexpr (is_stop_ever_possible) {
           stopCallback_.construct(
               get_stop_token(receiver_), cancel_callback{*this});
@@ -631,6 +634,9 @@ class io_epoll_context::read_sender {
 
       UNIFEX_VERIF_YIELD("io.ep.r.complete_io");
       auto result = readv(self.fd_, self.buffer_, 1);
+      if (result < 0) {
+        result = -errno;
+      }
       UNIFEX_ASSERT(result != -EAGAIN);
       UNIFEX_ASSERT(result != -EWOULDBLOCK);
       if (result == -ECANCELED) {
@@ -790,8 +796,11 @@ class io_epoll_context::write_sender {
 
       UNIFEX_VERIF_YIELD("io.ep.w.start");
       auto result = writev(fd_, buffer_, 1);
+      if (result < 0) {
+        result = -errno;
+      }
 
-      if (result == -EAGAIN || result == -EWOULDBLOCK || result == -EPERM) {
+      if (result == -EAGAIN || result == -EWOULDBLOCK) {
         if constexpr (is_stop_ever_possible) {
           stopCallback_.construct(
               get_stop_token(receiver_), cancel_callback{*this});
@@ -869,6 +878,9 @@ class io_epoll_context::write_sender {
 
       UNIFEX_VERIF_YIELD("io.ep.w.complete_io");
       auto result = writev(self.fd_, self.buffer_, 1);
+      if (result < 0) {
+        result = -errno;
+      }
       UNIFEX_ASSERT(result != -EAGAIN);
       UNIFEX_ASSERT(result != -EWOULDBLOCK);
       if (result == -ECANCELED) {
